@@ -58,10 +58,45 @@ pub struct Pair
 }
 
 /// Materialise `tree` in a fresh sandbox, run `--check`, then an edit run.
+/// File permission bits are part of a tree too: about one source file in four gets a non-default
+/// mode (read-only 0444 / 0400, executable 0755, group-writable 0664), chosen as a pure function of
+/// its path and content. The harness runs as root, so none of them keeps Breadlog from reading or
+/// replacing the file; what a tool does with such a file must not differ between the two modes.
+pub fn vary_modes(proj: &std::path::Path, tree: &Tree) -> usize
+{
+    use std::os::unix::fs::PermissionsExt;
+    let mut n = 0;
+    for (rel, node) in tree
+    {
+        if let Node::File(b) = node
+        {
+            if rel == "Breadlog.yaml" || rel == "Breadlog.lock"
+            {
+                continue;
+            }
+            let h = crate::engine::hash_of(&(rel, b));
+            let mode = match h % 16
+            {
+                0 | 1 => 0o444,
+                2 => 0o400,
+                3 => 0o755,
+                4 => 0o664,
+                _ => continue,
+            };
+            if std::fs::set_permissions(proj.join(rel), std::fs::Permissions::from_mode(mode)).is_ok()
+            {
+                n += 1;
+            }
+        }
+    }
+    n
+}
+
 pub fn run_pair(tree: &Tree) -> Pair
 {
     let sb = Sandbox::new();
     materialise(&sb.proj(), tree);
+    vary_modes(&sb.proj(), tree);
     let check = simple_run(&sb, true);
     let after_check = read_files(&sb.proj());
     // restore anything a (faulty) check run may have changed, so that the edit run starts from the original
@@ -81,6 +116,7 @@ pub fn run_pair(tree: &Tree) -> Pair
         let _ = std::fs::remove_dir_all(sb.proj());
         std::fs::create_dir_all(sb.proj()).unwrap();
         materialise(&sb.proj(), tree);
+        vary_modes(&sb.proj(), tree);
     }
     let edit = simple_run(&sb, false);
     let after_edit = read_files(&sb.proj());
